@@ -70,6 +70,26 @@ Example C18_example :
   seg_dist 8%N 7%N true = -1.
 Proof. repeat split. Qed.
 
+(* ... and of the hypotheses of the two mask round trips: a proper subsequence of a parent
+   with a repeated element (round trip 1 needs no distinctness: the leftmost occurrences are
+   taken), a parent of distinct elements (round trip 2), a mask that is too long, and why
+   round trip 2 needs distinct elements (two masks decode to the same child) *)
+Example C18_example_masks :
+  Subseq [1; 3; 1]%nat [1; 2; 3; 1; 4]%nat /\
+  mask_from_subseq Nat.eqb [1; 3; 1]%nat [1; 2; 3; 1; 4]%nat = 13%N /\
+  subseq_from_mask 13%N [1; 2; 3; 1; 4]%nat = Some [1; 3; 1]%nat /\
+  NoDup [1; 2; 3; 5; 4]%nat /\
+  subseq_from_mask 22%N [1; 2; 3; 5; 4]%nat = Some [2; 3; 4]%nat /\
+  mask_from_subseq Nat.eqb [2; 3; 4]%nat [1; 2; 3; 5; 4]%nat = 22%N /\
+  subseq_from_mask 32%N [1; 2; 3; 5; 4]%nat = None /\
+  subseq_from_mask 8%N [1; 2; 3; 1; 4]%nat = Some [1]%nat /\
+  mask_from_subseq Nat.eqb [1]%nat [1; 2; 3; 1; 4]%nat = 1%N.
+Proof.
+  repeat split.
+  - repeat constructor.
+  - repeat (constructor; [simpl; intuition discriminate|]). constructor.
+Qed.
+
 (** Tie to the source by translation: Gen/SubseqGen.v is regenerated from
     utils/subsequences.py on every run (translator/pyfun.py, translator/subseq_gen.py);
     the generated functions equal the hand-written model for all inputs, error cases
